@@ -179,6 +179,27 @@ func c08Round(run *ev.Run, o c08One, buf gopacket.SerializeBuffer, rdec *c08Deco
 		}
 		return append([]byte(nil), cur.Bytes()...), true
 	}
+	// third: the decoded value carries its own lengths, pad count, checksums and AuthCode,
+	// so it must serialise to the same bytes whichever of them the caller asks to have recomputed
+	third := func(l gopacket.SerializableLayer, payload, b1 []byte) {
+		for k, opts := range []gopacket.SerializeOptions{{FixLengths: false, ComputeChecksums: true}, {FixLengths: true, ComputeChecksums: false}, {}} {
+			if (o.Index+k)%3 != 0 && o.Index%10 != 9 {
+				continue
+			}
+			tb := gopacket.NewSerializeBuffer()
+			var err error
+			pv, st := safe(func() { err = gopacket.SerializeLayers(tb, opts, l, gopacket.Payload(payload)) })
+			if pv != nil {
+				viol("serialise-panic", fmt.Sprintf("panic: %v\n%s", pv, trimStack(st)), nil)
+				return
+			}
+			run.Event("reserialisations-with-other-options", 1)
+			if err != nil || !bytes.Equal(tb.Bytes(), b1) {
+				viol(fmt.Sprintf("reserialise-mismatch:fixlengths-%v-checksums-%v", opts.FixLengths, opts.ComputeChecksums), fmt.Sprintf("decoded value serialised with %+v: err %v, first % x now % x", opts, err, b1, tb.Bytes()), nil)
+				return
+			}
+		}
+	}
 	dec := func(l interface {
 		DecodeFromBytes([]byte, gopacket.DecodeFeedback) error
 	}, data []byte) bool {
@@ -233,6 +254,9 @@ func c08Round(run *ev.Run, o c08One, buf gopacket.SerializeBuffer, rdec *c08Deco
 		b2, ok := ser(&y, y.LayerPayload())
 		if ok && !bytes.Equal(b1, b2) {
 			viol("reserialise-mismatch", fmt.Sprintf("first % x second % x", b1, b2), nil)
+		}
+		if ok {
+			third(&y, y.LayerPayload(), b1)
 		}
 		run.Nontrivial(fmt.Sprintf("v1 %d %d %s", x.AuthType, plen%4, bufKind))
 	case "V2Session":
@@ -335,6 +359,9 @@ func c08Round(run *ev.Run, o c08One, buf gopacket.SerializeBuffer, rdec *c08Deco
 		if ok && !bytes.Equal(b1, b2) {
 			viol("reserialise-mismatch", fmt.Sprintf("first % x second % x", b1, b2), nil)
 		}
+		if ok {
+			third(&y, y.LayerPayload(), b1)
+		}
 		run.Nontrivial(fmt.Sprintf("v2 %v %v %v %s %d %s", x.PayloadType == ipmi.PayloadTypeOEM, x.Encrypted, x.Authenticated, hname, plen%4, bufKind))
 	case "Message":
 		nf := ipmi.NetworkFunction(o.Index % 64)
@@ -381,6 +408,9 @@ func c08Round(run *ev.Run, o c08One, buf gopacket.SerializeBuffer, rdec *c08Deco
 		b2, ok := ser(&y, y.LayerPayload())
 		if ok && !bytes.Equal(b1, b2) {
 			viol("reserialise-mismatch", fmt.Sprintf("first % x second % x", b1, b2), nil)
+		}
+		if ok {
+			third(&y, y.LayerPayload(), b1)
 		}
 		run.Nontrivial(fmt.Sprintf("msg %d %s", nf, bufKind))
 	case "AES128CBC":
